@@ -47,7 +47,7 @@ FLAVOURS = {"plain": {}, "integer": {"integer": True}, "posint": {"integer": Tru
             "nonneg": {"integer": True, "nonnegative": True}}
 SYMX = ["N", "M", "batch", "K"]
 BIN = ["add", "sub", "mul", "floordiv", "truediv", "mod"]
-RBIN = ["add", "sub", "mul", "truediv"]  # int on the left supported
+RBIN = ["add", "sub", "mul", "truediv", "floordiv", "mod"]  # int on the left supported (// and % since repo fix: see DESIGN 4.1)
 
 
 class Undefined(Exception):
